@@ -116,6 +116,9 @@ def navigations(w, all_paths):
     for S in ("vt.aa", "vt.bb", "vt.cc"):
         yield ("metador.query", lambda S=S: list(w.metador.query(S)))
     yield ("metador.query-node", lambda: list(w.metador.query("vt.aa", node=w)))
+    # listings of the attached metadata hand out records that carry the node the object is stored in
+    yield ("meta.values.node", lambda: [v.node for v in w.meta.values()])
+    yield ("meta.items.node", lambda: [v.node for _, v in w.meta.items()])
     for f in FLAGS:
         yield ("restrict-false", lambda f=f: [w.restrict(**{f: False})])
 
@@ -130,6 +133,18 @@ def navigations(w, all_paths):
 
 
 MORE = [(f,) for f in FLAGS] + [tuple(FLAGS)]
+
+
+def _owner(name):
+    """The user node a path belongs to: a stored metadata object (documented layout: <parent>/metador_meta_<node>/<obj>,
+    <group>/metador_meta_/<obj>) belongs to the node it is attached to."""
+    segs = name.split("/")
+    for i, sg in enumerate(segs):
+        if sg.startswith("metador_meta_"):
+            rest = sg[len("metador_meta_") :]
+            own = "/".join(segs[:i] + ([rest] if rest else []))
+            return own or "/"
+    return name
 
 
 def raw_dump(cont):
@@ -255,7 +270,7 @@ def explore(task):
                 report(_viol(task, "flags-dropped", f"reached {w.name} with flags {sorted(fl)} from a start restricted as {sorted(F0)} via {chain}", chain))
                 continue  # futures of an escaped wrapper are meaningless
             if local_root is not None:
-                nm = w.name
+                nm = _owner(w.name)
                 inside = nm == local_root or local_root == "/" or nm.startswith(local_root.rstrip("/") + "/")
                 if not inside:
                     report(_viol(task, "left-local-root", f"reached {nm} outside local root {local_root} via {chain}", chain))
